@@ -24,7 +24,7 @@ func init() {
 			"R3 contradiction rule for optional values: a struct field that is compared with nil somewhere is only invoked/dereferenced under a dominating non-nil fact (or after a non-nil store); values obtained together with an error are not used on the error branch; " +
 			"R4 Init->Evaluate typestate for every registered action and operator: a field invoked or dereferenced by Evaluate is assigned on every successful path of Init / the factory, or tested for nil before use; " +
 			"R5 run-time limits reach slice bounds only range-checked (shared with C10.R2/R3); R6 (incl. indices counted down in a loop, which need a lower bound, and variables indexing fixed-size arrays, which need both bounds; validators returning an error contribute what they guarantee when they return nil) look-ahead and fixed-position reads in the configuration parser, macro expander, string helpers, actions and engine are dominated by a length fact (A9 shapes only); " +
-			"R7 Include recursion is bounded by a counter tested before recursing; R8 every non-constant size handed to an allocation primitive (make, Builder/Buffer.Grow, Repeat) is provably non-negative, and a make with both len and cap has len <= cap; R2 also covers assertions to interface types (every possible dynamic type implements the target); R3 also follows pointer fields that a composite literal leaves unset and nothing ever assigns (nil for the object's whole life) through accessors and interface wrapping to every dereference; R9 every store to Rule.DisruptiveStatus carries a status net/http's WriteHeader accepts (0 or 100..999, by constant or by dominating comparisons). R10 every scanning loop of the decoders and parsers whose continuation test reads a loop-carried position advances that position on every feasible path of an iteration (a path that returns to the test unchanged is accepted only when its last edge falsifies the test, and the false side of `j > 0` is pruned when j is a counter whose bounded inner loop provably runs once). R11 every integer division or remainder divides by a non-zero constant or by a value a dominating comparison makes non-zero.",
+			"R7 Include recursion is bounded by a counter tested before recursing; R8 every non-constant size handed to an allocation primitive (make, Builder/Buffer.Grow, Repeat) is provably non-negative, and a make with both len and cap has len <= cap; R2 also covers assertions to interface types (every possible dynamic type implements the target); R3 also follows pointer fields that a composite literal leaves unset and nothing ever assigns (nil for the object's whole life) through accessors and interface wrapping to every dereference; R9 every store to Rule.DisruptiveStatus carries a status net/http's WriteHeader accepts (0 or 100..999, by constant or by dominating comparisons). R10 every scanning loop of the decoders and parsers whose continuation test reads a loop-carried position advances that position on every feasible path of an iteration (a path that returns to the test unchanged is accepted only when its last edge falsifies the test, and the false side of `j > 0` is pruned when j is a counter whose bounded inner loop provably runs once). R11 every integer division or remainder divides by a non-zero constant or by a value a dominating comparison makes non-zero. R3 also counts an assignment to an entry of a map loaded from an optional field as a use (a nil map panics on assignment).",
 		NotDecided: []string{
 			"panics from shifts and conversions, map writes on nil maps, and index shapes outside x[c], x[v+c], x[len-c]",
 			"panics inside third-party libraries (regexp, aho-corasick, gjson, libinjection, xml)",
